@@ -1,5 +1,6 @@
 import RpcVerif.Model.Basic
 import RpcVerif.Model.Wire
+import RpcVerif.Generated.ServerFacts
 /-
   S — one server connection (server.go: ServeCodec, ServeRequest, readRequestHeader,
   handleRequest, readRequestBody, callService, sendResponse; codec_server.go: WriteResponse),
@@ -58,6 +59,7 @@ structure Job where
   req : Req
   phase : JobPhase := .queued
   verdict : Option Verdict := none
+  ran : Bool := false            -- its handler was entered
 deriving DecidableEq, Repr
 
 inductive Reader | waiting | decoding (r : Req) | ended | drained | waited | served
@@ -78,6 +80,7 @@ structure State where
   resps : List Resp := []        -- responses in the order they were written
   execs : List Nat := []         -- request ids in the order their handlers were entered
   reqs : List Req := []          -- every request fed (ghost)
+  crashed : Option String := none -- a run-time panic has killed the process
 deriving Repr
 
 def init (cfg : Cfg) : State := { cfg := cfg }
@@ -110,14 +113,30 @@ def dispatch (r : Req) : Dispatch :=
 /-- `ServeRequest(ctx)` for one frame (stream traffic is answered as the code does when no
     such stream exists: open on a non-stream method → error response; close → response;
     message → dropped). -/
+def crash (s : State) (why : String) : State := { s with crashed := some why }
+
+/-- `sendResponse` for a request that has no reply object (ping, close-stream, stream open that
+    fell through): `ctx.reply.Interface()` on the zero Value panics unless guarded. -/
+def respondNoReply (s : State) (r : Req) : State :=
+  if !Gen.sendGuardsZeroReply && (flags r).noResponse != Gen.noResponse then crash s "reflect: Interface on zero Value (sendResponse)"
+  else respond s r .none false
+
 def serveRequest (s : State) (r : Req) : State :=
   if r.junk || s.codecClosed then s else
   match dispatch r with
-  | .ping => respond s r .none false
-  | .openStream => respond s r (if r.method.known then .nostream else .nostream) false
-  | .closeStream => respond s r .none false
+  | .ping => respondNoReply s r
+  | .openStream =>
+    -- no stream method is registered under these names: unknown method → error; a unary method →
+    -- error if the SetStream assertion is checked, else the handler is started with the wrong
+    -- arguments (its error is ignored) and sendResponse runs without a reply object
+    if !r.method.known then respond s r .nostream false
+    else if Gen.openChecksSetStream then respond s r .nostream false
+    else respondNoReply s r
+  | .closeStream => respondNoReply s r
   | .streamMsg => s
-  | .job => { s with wg := s.wg + 1, jobs := s.jobs ++ [{ req := r }] }
+  | .job =>
+    if s.reader == .waited || s.reader == .served then crash s "sync: WaitGroup is reused before previous Wait has returned"
+    else { s with wg := s.wg + 1, jobs := s.jobs ++ [{ req := r }] }
 
 def getJob (s : State) (k : Nat) : Option Job := s.jobs.find? (·.req.seq == k)
 
@@ -140,7 +159,7 @@ inductive Ev
   | closeCodec          -- teardown: codec.Close and the rest
 deriving DecidableEq, Repr
 
-def step (s : State) : Ev → Option State
+def stepCore (s : State) : Ev → Option State
   | .feed r =>
     if s.reader != .waiting then none else
     let s := { s with reqs := s.reqs ++ [r] }
@@ -160,12 +179,16 @@ def step (s : State) : Ev → Option State
     | some j =>
       if j.phase != .queued || !jobTurn s k then none else
       let r := j.req
-      if !r.method.known then
+      if !Gen.serverLooksUpAlways && (flags r).noRequest == Gen.noRequest then
+        some (crash s "nil pointer dereference: ctx.f (readRequestBody/callService)")
+      else if !r.method.known then
         some { (respond (updJob s k fun j => { j with phase := .left }) r .nosvc false) with wg := s.wg - 1 }
       else if (flags r).noRequest != Gen.noRequest && r.badArgs then
         some { (respond (updJob s k fun j => { j with phase := .left }) r .badargs false) with wg := s.wg - 1 }
+      else if !Gen.replyAllocatedAlways && (flags r).noResponse == Gen.noResponse && !r.method.returnsOut then
+        some (crash s "reflect: Call using zero Value argument (callService)")
       else
-        some { (updJob s k fun j => { j with phase := .entered }) with execs := s.execs ++ [k] }
+        some { (updJob s k fun j => { j with phase := .entered, ran := true }) with execs := s.execs ++ [k] }
     | none => none
   | .hret k v =>
     match getJob s k with
@@ -190,8 +213,12 @@ def step (s : State) : Ev → Option State
       some { s with wg := s.wg - 1 }
     | none => none
   | .drain => if s.reader == .ended && s.decodeQ.isEmpty then some { s with reader := .drained } else none
-  | .wait => if s.reader == .drained && s.wg == 0 then some { s with reader := .waited } else none
+  | .wait =>
+    if (s.reader == .drained || (!Gen.teardownDrainsFirst && s.reader == .ended)) && s.wg == 0 then some { s with reader := .waited } else none
   | .closeCodec => if s.reader == .waited then some { s with reader := .served, codecClosed := true } else none
+
+/-- a crashed process takes no further step -/
+def step (s : State) (e : Ev) : Option State := if s.crashed.isSome then none else stepCore s e
 
 inductive Accepts : State → List Ev → State → Prop
   | nil (s : State) : Accepts s [] s
